@@ -582,6 +582,8 @@ def mutate_line(rng, text, token):
 def c18_run(rng):
     cls = rng.choice(["T", "T", "S"])
     cfg = base_config(rng, cls)
+    if rng.random() < 0.3:
+        cfg["noisy"] = True        # the pool's workers print to the console
     nsess = rng.choice([1, 1, 2, 3, 4, 4, 11])      # (11: two-digit session counts)
     steps = [{"op": "start"}, {"op": "idle"}]
     for i in range(nsess):
@@ -993,6 +995,13 @@ def _final_c19(sim):
                             sim.violate("C19", "cli_reply", f"bundled client {c.label}: reply {i} printed {shown[i][:50]!r}, server wrote {w[:50]!r}")
                             break
                     sim.stats["probe:cli_replies_compared"] += max(0, min(len(shown), len(writes) - 1))
+                    # every non-blank line typed at the prompt (except `exit`) is one request and gets one reply; a blank
+                    # line is ignored by the client and must not reach (and thereby end) the session
+                    typed = [ln for ln in getattr(c, "cli_sent", []) if ln.strip() and ln.strip().lower() != "exit"]
+                    # (only in runs in which the server was never stopped: a stopped server's sessions end after their next line)
+                    if len(writes) - 1 != len(typed) and not sim.stopped and getattr(sim, "epoch", 0) == 0:
+                        sim.violate("C19", "cli_requests", f"bundled client {c.label}: {len(typed)} commands typed ({getattr(c, 'cli_sent', [])!r}), "
+                                    f"server wrote {len(writes) - 1} replies on its connection; client printed {c.printed!r}")
     if not sim.run.get("parked_leave"):
         _end_waits(sim)
     if not sim.stopped:
